@@ -728,7 +728,7 @@ pub fn check_case(case: &Case, ctx: &mut Ctx) -> CaseResult {
 pub fn run(eng: &mut Engine) {
     eng.rule = "cases = generated projects of 1..4 functions (1..8 blocks) reading and writing calling-convention parameter registers in assignments, load/store addresses, store values, branch conditions, indirect jump/call targets and return targets, with partial overwrites, loops, extern calls (declared parameters, returning and no_return), internal and indirect calls; the program is normalized like the pipeline does, signatures computed by compute_function_signatures; oracle = own backward upward-exposed-use dataflow over intraprocedural jump edges (every call clobbers the parameter registers and ends a path; a returning call of an internal function counts as a read of the registers that function reads on a jump-edge path to one of its returns, computed as least fixpoint over the call graph; bare-variable stores and arguments of non-returning calls are not demanded); demanded parameter registers must be reported; non-trivial = some demanded register is first used outside the entry block; distinct by hash of the normalized program".into();
     eng.assumptions = vec!["the demand computed by the oracle under-approximates 'can be read before being overwritten' (paths are cut at every call), so every demanded register is covered by the property".into()];
-    let cases = eng.tier.pick(100_000u64, 3_000_000u64);
+    let cases = eng.tier.pick(400_000u64, 3_000_000u64);
     eng.random(
         "signature-demand",
         RandomSpec { cases, max_tape: 900 },
